@@ -314,10 +314,9 @@ func checkCase(c *core.Ctx, cs Case) {
 func checkAfterTorn(c *core.Ctx, cs Case, dir string, torn string) {
 	complete := map[string]string{}
 	lines := strings.Split(torn, "\n")
-	for i, l := range lines {
-		if i == len(lines)-1 {
-			break // the last piece has no terminating newline: incomplete by definition
-		}
+	for _, l := range lines {
+		// a cut-off last piece counts as well: a truncated hash can never equal the full current
+		// hash and a truncated path is another key, so equality below already implies completeness
 		if f := strings.Fields(l); len(f) >= 2 {
 			complete[f[0]] = f[1]
 		}
